@@ -233,6 +233,17 @@ def handle (toks : List String) : Option String :=
     let lv := Subset.run nc ms (ms + 1) g0 orc
     some ("|".intercalate (lv.map (fun l =>
       showList l.values ++ ":" ++ toString l.threshold ++ ":" ++ (match l.prob with | some k => toString k | none => "p0"))))
+  | ["subsetpf", a, b, N, nc, maxSub, g0, oracle] => do
+    let a ← a.toNat?
+    let b ← b.toNat?
+    let N ← N.toNat?
+    let nc ← nc.toNat?
+    let ms ← maxSub.toNat?
+    let g0 ← parseList g0
+    let orc ← (if oracle == "-" then some [] else
+      (oracle.splitOn "|").mapM (fun lv => (lv.splitOn ";").mapM parseList))
+    let r := Subset.pf a b N (Subset.run nc ms (ms + 1) g0 orc)
+    some s!"{r.1} {r.2}"
   | "c12" :: args => do
     let a ← parseFloats args
     if a.size < 4 then none else
